@@ -11,8 +11,8 @@ from fractions import Fraction
 from common import (standard_prologue, enc, dec, HX, DRV, OKANE, WORK, VERIF, BuildError)
 
 CLAIM = {
-    "technique": ("Lean 4 theorems that the model's book-keeping and error-reporting functions never reach a panic site or run out "
-                  "of fuel + differential/oracle streams that run the real parser, formatter, loader and report commands in-process "
+    "technique": ("Lean 4 theorems that the model's parser, formatter, loader, book-keeping and error-reporting functions never reach "
+                  "a panic site or run out of fuel + differential/oracle streams that run the real parser, formatter, loader and report commands in-process "
                   "(catch_unwind + watchdog) and as child processes of the real binary (10 s timeout, exit status / signal recorded)"),
     "text": ("PARTIAL proof. Proved for all inputs (Lean, no sorry): `process` (book-keeping of any entry list, from any "
              "accumulated state) returns a state or an error and never a panic/fuel-out — both panic sites of the model (the "
@@ -22,10 +22,23 @@ CLAIM = {
              "for in-range positions; `clip` underflows exactly when the child span ends before the entry starts, never for spans "
              "inside the entry; building and annotating a book-keeping report is total for valid entry spans; C06_prefix (every "
              "prefix of every text) is a corollary of totality. C06_load: over the loader model, any load with fuel |readable files|+1 ends in ok or a LoadError, "
-             "never fuel-out or panic, so include cycles end in RecursiveInclude (restates C11_terminates_load). NOT proved: "
-             "C06_parse / C06_format (totality of the ledger parser and of format = parse+print) are only stated, as Props over the "
-             "parser model's entry points; no totality theorem for the combinator parser exists yet, so parser and printer "
-             "totality rest on the streams. Wall-clock promptness, real stack depth and "
+             "never fuel-out or panic, so include cycles end in RecursiveInclude (restates C11_terminates_load). "
+             "C06_parse (C06_parse_holds / C06_parse_total): for EVERY text the ledger parser model run with fuel |t|+1 ends in ok or "
+             "in a ParseError, never in a panic or fuel-out: every rule of the grammar model is shown `Safe` (no panic, no fuel-out, the "
+             "remaining input and every failure position are suffixes of the input), every element/separator of every winnow "
+             "repeat / repeat_till / separated loop of okane's grammar and the entry parser iterated by ParsedIter consume >= 1 "
+             "character when they succeed (C06_loop_elements_consume), so no ParserError::assert site is reachable and every fuel "
+             "bound of the model (combinator loops and lot's loop length+1, expression parser 5|inp|+10 where 5|inp|+1 is needed, entry "
+             "iterator |t|+1) suffices; the checkpoint and failure position of every reported error are byte positions "
+             "startPos <= errPos <= |text|, so the byte-level ParseError::new (offset_from assertion, compute_line_number assert, "
+             "char-boundary search with fuel) succeeds and yields the same line_start and error_span as the parser model; the entry "
+             "spans delivered are non-empty valid UTF-8 slices of the text, ordered and non-overlapping (C06_parse_spans), so the "
+             "report context of every delivered entry can be built (C06_parsed_entry_context). "
+             "C06_format (C06_format_holds): format = parse + print every entry returns text or a ParseError for every text and every "
+             "display-width function (the printer model is a total function of the tree). These are theorems about the hand-written "
+             "parser/printer MODEL (winnow's combinator semantics are re-implemented in the model from reading winnow 0.7.6); that the "
+             "model is what /repo computes rests on the correspondence streams, as does everything below. NOT proved: "
+             "wall-clock promptness, real stack depth and "
              "panics inside third-party crates are observed by the harness (timeouts, catch_unwind, child exit status) but carried "
              "by no theorem. Streams on every run: every prefix (cut at every character) of the corpus ledgers and of generated "
              "ledgers, random strings over the ledger alphabet and arbitrary Unicode, mutated ledgers, all include graphs on <= 3 "
@@ -44,6 +57,10 @@ THEOREMS = [
     "Okane.C06.C06_zero_amount_exchange_rejected", "Okane.C06.C06_boundary_search", "Okane.C06.C06_parse_error_new",
     "Okane.C06.C06_line_number", "Okane.C06.C06_clip_iff", "Okane.C06.C06_clip", "Okane.C06.C06_error_context",
     "Okane.C06.C06_prefix", "Okane.C06.C06_load", "Okane.C06.C06_load_fake",
+    "Okane.C06.C06_parse_holds", "Okane.C06.C06_parse_safe", "Okane.C06.C06_parse_total",
+    "Okane.C06.C06_format_holds", "Okane.C06.C06_format_total", "Okane.C06.C06_parse_prefix", "Okane.C06.C06_format_prefix",
+    "Okane.C06.C06_loop_elements_consume", "Okane.C06.C06_loops", "Okane.C06.C06_expr_fuel",
+    "Okane.C06.C06_parse_spans", "Okane.C06.C06_parsed_entry_context",
 ]
 
 TIMEOUT_MS = 10000
